@@ -1,6 +1,46 @@
-"""C03 - queue family check (see lib/queuefam.py)."""
+"""C03 - queue family check (see lib/queuefam.py) + concurrent stress (lib/c03conc.py) + lease TTLs beyond the int64 horizon."""
+import json
+import os
+
+from lib import common as C
 from lib import queuefam
 
 
+def lease_horizon(ctx, info):
+    """now+ttl beyond the int64 nanosecond range (year 2262): outside the integer range the stores can store, and outside what the
+    correspondence can feed the model; judged on the implementation directly."""
+    ttls = [2**63 - 1, 7523372036854775807, 290 * 365 * 86400 * 10**9, 263 * 365 * 86400 * 10**9, 262 * 365 * 86400 * 10**9, 200 * 365 * 86400 * 10**9]
+    d = os.path.join(ctx.scratch, "lh")
+    os.makedirs(d, exist_ok=True)
+    rc, out, err = C.harness_run(info["hbin"], ["lease-horizon"], {"dir": d, "ttls_ns": ttls, "now_ns": 1_700_000_000 * 10**9}, timeout=120)
+    if rc != 0:
+        raise RuntimeError("lease-horizon failed: " + err[-1500:])
+    rows = json.loads(out)["rows"]
+    for r in rows:
+        probs = []
+        if r.get("err") or r["first_items"] != 1:
+            probs.append("the first dequeue did not lease the message (%s)" % (r.get("err") or r["first_items"]))
+        else:
+            if not r["lease_until_after_now"]:
+                probs.append("the lease handed out ends before it began")
+            if r["second_items"] != 0:
+                probs.append("one second later another dequeue returned the message although its lease (ttl %d ns) has not ended" % r["ttl_ns"])
+            if r["extend_err"] or r["ack_err"]:
+                probs.append("the holder's extend/ack were answered %r / %r" % (r["extend_err"], r["ack_err"]))
+        if probs:
+            C.report(ctx, "lease-beyond-int64-horizon:%s" % r["backend"], "; ".join(probs),
+                     {"kind": "history", "case": {"backend": r["backend"], "lease_ttl_ns": r["ttl_ns"], "clock_ns": 1_700_000_000 * 10**9,
+                                                  "calls": ["Enqueue", "Dequeue(batch 1, lease_ttl)", "clock +1s", "Dequeue(batch 5)", "Extend(first lease, 1s)", "Ack(first lease)"]},
+                      "observed": r})
+    return {"lease_ttl_beyond_int64_horizon": {"cases": len(rows), "ttls_ns": ttls}}
+
+
+def extra(ctx, info, rng, *rest):
+    cov = __import__("lib.c03conc", fromlist=["run"]).run(ctx, info, rng)
+    cov = cov or {}
+    cov.update(lease_horizon(ctx, info))
+    return cov
+
+
 def main(ctx, replay):
-    return queuefam.run_property(ctx, "C03", 150, 3000, extra=lambda *a: __import__("lib.c03conc", fromlist=["run"]).run(*a[:3]), extra_prop_files=("C03conc",))
+    return queuefam.run_property(ctx, "C03", 150, 3000, extra=extra, extra_prop_files=("C03conc",))
